@@ -90,7 +90,7 @@ class World:
         self.contract_hook = None
         from . import intrinsics
         intrinsics.install(self)
-        for m in ("vfs", "faults"):    # loaded up front, so that their objects are part of every path's base heap
+        for m in ("vfs", "faults", "npstate"):    # loaded up front, so that their objects are part of every path's base heap
             self.model_module(m)
 
     def module_path(self, modname):
